@@ -557,6 +557,33 @@ encodeResponse:
         *alertDescription = SSL_ALERT_NONE;
         rc = sslEncodeResponse(ssl, &tmp, requiredLen);
     }
+    if (rc == SSL_FULL && useOutbufForResponse)
+    {
+        /* Unread records follow in inbuf, so the response is being
+           written to outbuf and it is outbuf that is too small. Do not
+           report SSL_FULL: matrixSslReceivedData would grow inbuf, drop
+           the unread input (losing record framing) and have the
+           response re-encoded over it. Grow outbuf here instead. */
+        unsigned char *newOut;
+        uint32 newSize = ssl->outlen + *requiredLen;
+
+        if (*requiredLen > SSL_MAX_BUF_SIZE)
+        {
+            *error = PS_MEM_FAIL;
+            return MATRIXSSL_ERROR;
+        }
+        newOut = psRealloc(ssl->outbuf, newSize, ssl->bufferPool);
+        if (newOut == NULL)
+        {
+            *error = PS_MEM_FAIL;
+            return MATRIXSSL_ERROR;
+        }
+        ssl->outbuf = newOut;
+        ssl->outsize = newSize;
+        tmp.buf = tmp.start = tmp.end = ssl->outbuf + ssl->outlen;
+        tmp.size = ssl->outsize - ssl->outlen;
+        rc = sslEncodeResponse(ssl, &tmp, requiredLen);
+    }
     if (rc == SSL_FULL)
     {
         ssl->flags |= SSL_FLAGS_NEED_ENCODE;
